@@ -453,6 +453,10 @@ pub fn conflict_defs() -> BoxedStrategy<DefSpec> {
             p
         }),
     ];
+    // a regex that starts with a bare inline flag item: the flag belongs to this pattern only, the patterns declared
+    // after it are read case-sensitively (or case-insensitively) as written
+    let flagged = (tiny_ast(false), select(vec!["(?i)", "(?i)", "(?-i)", "(?s)", "(?x)"])).prop_map(|(a, f)| PatSpec::regex(LitSpec::str(format!("{f}{}", a.text()))));
+    let pat = prop_oneof![8 => pat, 1 => flagged];
     let prio = prop::option::weighted(0.5, 1usize..=4);
     // number of leading patterns that become skips: ties among skips only, between a skip and a token, among tokens
     let n_skips = prop_oneof![6 => Just(0usize), 2 => Just(1usize), 2 => Just(2usize), 1 => Just(3usize)];
@@ -755,11 +759,20 @@ pub fn literal_defs() -> BoxedStrategy<DefSpec> {
             }
         })
         .boxed();
-    prop_oneof![10 => plain, 2 => with_sub]
-    .prop_map(|(skips, toks, sub)| {
+    (prop_oneof![10 => plain, 2 => with_sub], vec(prop::bool::weighted(0.3), 6))
+    .prop_map(|((skips, toks, sub), share)| {
         let any_bytes = skips.iter().chain(toks.iter()).any(|p: &PatSpec| p.lit.bytes && std::str::from_utf8(&p.lit.raw).is_err())
             || skips.iter().chain(toks.iter()).any(|p: &PatSpec| p.lit.bytes && p.kind == crate::spec::PatKind::Regex);
-        DefSpec { utf8: !any_bytes, subpatterns: sub.into_iter().collect(), skips, variants: toks.into_iter().map(|t| vec![t]).collect() }
+        // aliases: several patterns (literal tokens with and without ignore(case), regexes) stacked on one variant
+        let mut variants: Vec<Vec<PatSpec>> = Vec::new();
+        for (i, t) in toks.into_iter().enumerate() {
+            if i > 0 && share[i % share.len()] {
+                variants.last_mut().unwrap().push(t);
+            } else {
+                variants.push(vec![t]);
+            }
+        }
+        DefSpec { utf8: !any_bytes, subpatterns: sub.into_iter().collect(), skips, variants }
     })
     .boxed()
 }
@@ -844,6 +857,13 @@ pub fn subpattern_defs() -> BoxedStrategy<SubCase> {
                 let earlier: Vec<String> = subs.iter().map(|s| s.0.clone()).collect();
                 let mut counter = i * 3;
                 let b = with_refs(b, &picks, &earlier, &mut counter);
+                // verbose mode with a line comment inside the subpattern: scoped (off again before the end of the source,
+                // with text behind the group) or switched on for the whole source, the comment closed by a newline
+                let b = match picks[(i * 7 + 3) % picks.len()] % 8 {
+                    0 => Ast::Cat(vec![Ast::Group(Box::new(b), "(?x:# c\n "), Ast::Lit("t".into())]),
+                    1 => Ast::Cat(vec![Ast::Class("(?x) "), b, Ast::Class(" # c\n")]),
+                    _ => b,
+                };
                 // byte-string subpatterns only when the text is ASCII (valid as a b"" literal the same way)
                 let bytes = as_bytes && b.text().is_ascii();
                 let d = if count_refs(&b) > 0 { 1 + depth.iter().copied().max().unwrap_or(0) } else { 0 };
